@@ -126,7 +126,8 @@ func elementOf(op wlctrl.Op) (bulking.BulkElement, bool) {
 	}
 	switch op.K {
 	case wlctrl.KCreateP, wlctrl.KCreateS:
-		req := bulking.TransactionRequest{Reference: op.Ref, Metadata: md(op.Meta), Force: op.Force}
+		// every field wlctrl.BuildCreate sets (the bulk path must carry the same request as the single path)
+		req := bulking.TransactionRequest{Reference: op.Ref, Metadata: md(op.Meta), Force: op.Force, Runtime: ledger.RuntimeType(op.Runtime)}
 		if op.TS != nil {
 			req.Timestamp = timeOfUs(op.TS)
 		}
